@@ -809,3 +809,137 @@ def replay_rle_builder(w):
     except Exception as ex:
         return {'reproduced': None, 'how': {'note': 'native replay unavailable: %s' % ex}}
     return {'reproduced': True if line.startswith('REPLAY panic') else (False if line.startswith('REPLAY ok') else None), 'how': {'native': line[:300]}}
+
+
+# ------------------------------------------------------------------------------------------------ dictionary block *builder*
+_DICT = {}
+
+
+@crate_contract(r'^std::collections::HashMap::<<<A as array::Array>::Item as ToOwned>::Owned, i32>::get::<', 'HashMap::get(key): the value stored under an equal key (one fork per entry), None otherwise; keys are i32 payloads here')
+def _dict_get(vm, m, callee, args):
+    from .vm import NativeFork
+    from z3 import And, Not
+    h = dv(vm, args[0])
+    k = dv(vm, args[1]).v
+    entries = h.data['entries']
+    alts = []
+    for j, (kj, vj) in enumerate(entries):
+        cond = And([kk != k for kk, _ in entries[:j]] + [kj == k])
+        alts.append((cond, (lambda m2, a2, vj=vj: Enum('Option', 'Some', [Ref(Cell(vj))]))))
+    alts.append((And([kk != k for kk, _ in entries]) if entries else BoolVal(True), lambda m2, a2: Enum('Option', 'None')))
+    raise NativeFork(alts)
+
+
+@crate_contract(r'^std::collections::HashMap::<<<A as array::Array>::Item as ToOwned>::Owned, i32>::insert$', 'HashMap::insert(key, value) on a key known to be absent: a new entry')
+def _dict_insert(vm, m, callee, args):
+    h = dv(vm, args[0])
+    h.data['entries'] = h.data['entries'] + [(dv(vm, args[1]).v, dv(vm, args[2]))]
+    return Enum('Option', 'None')
+
+
+@crate_contract(r'^<rle_block_builder::RleBlockBuilder<primitive_array::PrimitiveArray<i32>, primitive_block_builder::PlainPrimitiveBlockBuilder<i32>> as block::BlockBuilder<primitive_array::PrimitiveArray<i32>>>::append$',
+                'the code column of a dictionary block: RleBlockBuilder<I32Array, _>::append records the code (the RLE builder itself is decided separately)')
+def _dict_rle_append(vm, m, callee, args):
+    from .vm import UNIT
+    o = args[1]
+    code = dv(vm, o.fields[0])
+    _DICT['codes'].append((tuple(m.pc), code))
+    return UNIT
+
+
+def run_dict_builder(rep, thorough):
+    """DictBlockBuilder::append from MIR: N symbolic, possibly NULL values; the codes handed to the code column and the
+    dictionary handed to the data builder must decode (as DictBlockIterator decodes them: NULL for i32::MIN, otherwise
+    entry code - (i32::MIN + 1)) to exactly the appended sequence."""
+    from z3 import Bool, And, Not, Or, BitVecVal
+    import copy
+    t0 = time.time()
+    try:
+        vm = make_vm(True)
+        f_app = find_fn(vm.prog, r'^dict_block_builder::<impl at src/storage/secondary/block/dict_block_builder\.rs:\d+:\d+: \d+:\d+>::append$')
+    except (Inconclusive, Unsupported, MirSyntax) as ex:
+        rep.fail_inconclusive('DictBlockBuilder: %s' % ex)
+        return
+    MIN = -(1 << 31)
+    n_ob = 0
+    for n in ((1, 2, 3, 4) if thorough else (1, 2, 3)):
+        desc = 'DictBlockBuilder::append x %d' % n
+        vals = [(Bool('dv_valid%d' % i), BitVec('dv_raw%d' % i, 32)) for i in range(n)]
+        st = Struct('DictBlockBuilder', [Opaque('dict_map', {'entries': []}), Opaque('data-builder'), Opaque('rle-builder'), mk_int(MIN, 'i32')])
+        paths = [((), Ref(Cell(st)), [], [])]     # pc, builder, codes, dictionary items
+        try:
+            for i, (v, r) in enumerate(vals):
+                nxt = []
+                for pc, bref, codes, items in paths:
+                    for present in (True, False):
+                        item = Enum('Option', 'Some', [Ref(Cell(BV(r, True)))]) if present else Enum('Option', 'None')
+                        b2 = copy.deepcopy(bref)
+                        _DICT['codes'] = []
+                        _RLEB['items'] = []
+                        outs = vm.run(f_app, [b2, item], pc=tuple(pc) + ((v,) if present else (Not(v),)))
+                        for o in outs:
+                            if o.kind != 'ret':
+                                nxt.append((tuple(o.pc), None, codes, items))
+                                continue
+                            on_path = lambda p_: set(map(str, p_)) <= set(map(str, o.pc))
+                            nc = [c for p_, c in _DICT['codes'] if on_path(p_)]
+                            ni = [it for p_, it in _RLEB['items'] if on_path(p_)]
+                            nxt.append((tuple(o.pc), o.args[0], codes + nc, items + [r for _ in ni]))
+                paths = nxt
+        except (Unsupported, MirSyntax, KeyError, IndexError, AttributeError, TypeError) as ex:
+            rep.fail_inconclusive('%s: %s: %s' % (desc, type(ex).__name__, str(ex)[:300]))
+            continue
+        rep.cov['programs'] += 1
+        for pc, bref, codes, items in paths:
+            n_ob += 1
+            if bref is None:
+                stv, m = satisfiable(list(pc))
+                if stv == 'unsat':
+                    rep.obligation(True)
+                    continue
+                out = rep.counterexample('dict-builder:panics', '%s panics' % desc, {'desc': desc}, None)
+                rep.obligation(out == 'known')
+                continue
+            if len(codes) != n:
+                claim = BoolVal(False)
+            else:
+                cl = []
+                for (v, r), c in zip(vals, codes):
+                    decoded_null = c.v == BitVecVal(MIN, 32)
+                    hit = Or([And(c.v == BitVecVal(MIN + 1 + j, 32), items[j] == r) for j in range(len(items))]) if items else BoolVal(False)
+                    cl.append(And(decoded_null == Not(v), Or(Not(v), hit)))
+                # dictionary entries are pairwise distinct (an entry stored twice would still decode, but wastes the block)
+                cl += [items[a] != items[b] for a in range(len(items)) for b in range(a + 1, len(items))]
+                claim = And(cl)
+            stv, m = check(list(pc), claim)
+            if stv == 'unsat':
+                rep.obligation(True)
+                rep.sample({'obligation': desc, 'verdict': 'codes + dictionary (%d entries) decode to the appended sequence' % len(items)}, cap=4)
+                continue
+            if stv == 'unknown':
+                rep.obligation(False)
+                rep.fail_inconclusive('solver unknown: ' + desc)
+                continue
+            w = {'values': [None if not is_true(m.eval(v, model_completion=True)) else m.eval(r, model_completion=True).as_signed_long() for v, r in vals],
+                 'codes': [m.eval(c.v, model_completion=True).as_signed_long() - MIN for c in codes], 'dictionary': [m.eval(x, model_completion=True).as_signed_long() for x in items]}
+            rp = replay_dict_builder(w)
+            what = '%s: appended %s; codes (offset from i32::MIN) %s, dictionary %s; end to end: %s' % (desc, w['values'], w['codes'], w['dictionary'], json.dumps(rp['how'])[:200])
+            out = rep.counterexample('dict-builder:codes', what[:500], {'witness': w, 'replay': rp}, rp['reproduced'])
+            rep.obligation(out == 'known')
+    rep.solver(time.time() - t0, n_ob)
+    rep.cov['functions_encoded'] = list(rep.cov.get('functions_encoded', [])) + ['DictBlockBuilder::append (from MIR)']
+    if isinstance(rep.cov.get('bounds'), dict):
+        rep.cov['bounds']['dictionary block builder'] = '1-%d appended values, each NULL or any i32; HashMap as an association list, code column and data builder contracts' % (4 if thorough else 3)
+
+
+def replay_dict_builder(w):
+    """The same appends on the real DictBlockBuilder, read back through the real DictBlockIterator (native replay)."""
+    from kani import run as krun
+    names, vals = {}, []
+    for v in w['values']:
+        vals.append(255 if v is None else names.setdefault(v, len(names) + 1))
+    try:
+        line = krun.native_replay('c06_dict_replay', [vals])
+    except Exception as ex:
+        return {'reproduced': None, 'how': {'note': 'native replay unavailable: %s' % ex}}
+    return {'reproduced': True if line.startswith('REPLAY panic') else (False if line.startswith('REPLAY ok') else None), 'how': {'native': line[:300]}}
